@@ -8,14 +8,6 @@ import Cog.Xform.Proofs.ObjLocal
 namespace Cog.Xform
 open Cog.IR
 
-theorem rebuild_congr (f g : Obj → Obj) : ∀ (l acc : List (String × Obj)),
-    (∀ kv ∈ l, f kv.2 = g kv.2) → rebuild f acc l = rebuild g acc l
-  | [], _, _ => rfl
-  | (k, o) :: rest, acc, h => by
-    have ho : f o = g o := h (k, o) (by simp)
-    simp only [rebuild, ho]
-    exact rebuild_congr f g rest _ (fun kv hkv => h kv (by simp [hkv]))
-
 /-! ## retype_field -/
 namespace RetypeField
 
